@@ -3,6 +3,11 @@
 import json, os, sys
 HERE = os.path.dirname(os.path.abspath(__file__))
 CLAIMED = {
+ "C08": ("model_checking",
+         "exhaustive enumeration of a representability-boundary value lattice per stored type x storage path x (create | set | reopen) histories of depth<=2, executed on the real library; live, raw-HDF5 and re-open observers against a pure representable() oracle",
+         "Every NumPy numeric dtype with every representability boundary it can hold (32-bit limits and neighbours, 2^63, float32 max, sub-normals, infinities, NaN, the no-data sentinel and its float neighbours), Unicode / byte strings, comments, blobs, metadata and value maps, written at creation and on a stored entity (ordinary node and concatenated drillhole path), with the old state varied (short, with gap, other dtype / length, none): representable values must read back equal live, raw and after re-open with the format's no-data codes; the rest must be refused and leave the stored value as it was.",
+         "The exact float sentinel is excluded entry-wise (documented exception); float32 narrowing accepted on the concatenated path; geometry fixed at 2 vertices / 2 depths.",
+         "DESIGN.md §4 C08"),
  "C13": ("model_checking",
          "exhaustive enumeration of objects on a small coordinate lattice x every box order type (per-axis bounds from the object's own coordinates, midpoints and outside values), executed on the real library against an independent closed point-in-box reference",
          "Objects: all point clouds of 1-3 lattice points, curve / surface cell patterns incl. unused and coincident vertices and all vertex permutations, 2-D grids over shapes x sizes x rotations x dips, block models, octrees, drillholes, groups, tipper and DC surveys; boxes: every pair lo<=hi per axis from {coordinates, midpoints, min-1, max+1}, 2- and 3-column extents, inverse on/off (full product below a cap, selection-class and order-type representatives above it). mask_by_extent on every box; copy_from_extent (and a second selection on the copy) per distinct selection; clauses are the sentences of the statement.",
